@@ -673,29 +673,19 @@ func (m *Mirror) handleFuturePrevoteProofs(
 	pubKeys := vlReq.VRV.ValidatorSet.PubKeys
 
 	if len(pubKeys) == 0 {
-		// The mirror didn't have the public keys loaded in memory,
-		// so read them from storage.
-		var err error
-		pubKeys, err = m.vs.LoadPubKeys(ctx, p.PubKeyHash)
-		if err != nil {
-			// The only "acceptable" error for loading public keys is not finding them.
-			var noHashErr tmstore.NoPubKeyHashError
-			if errors.As(err, &noHashErr) {
-				// Call it too far in the future if we can't identify the public keys.
-				// However, if supported, it would be better to make a remote call
-				// to look up the public keys.
-				return tmconsensus.HandleVoteProofsFutureUnverified
-			}
+		// The vote is for a height beyond the voting height.
+		// That height's validator set is only determined by a header we have not committed yet,
+		// so there is no key set these signatures can be verified against:
+		// a set looked up by the hash the sender chose may not be the one the chain prescribes,
+		// and votes verified against it must not be persisted under that height.
+		return tmconsensus.HandleVoteProofsFutureUnverified
+	}
 
-			// If it was any other error, fail now.
-			m.log.Warn(
-				"Error while looking up future public keys",
-				"h", p.Height,
-				"r", p.Round,
-				"err", err,
-			)
-			return tmconsensus.HandleVoteProofsInternalError
-		}
+	if p.PubKeyHash != string(vlReq.VRV.ValidatorSet.PubKeyHash) {
+		// Same height as the voting view, so the validator set is known;
+		// refuse a message that claims a different one,
+		// like we do for the rounds we hold views for.
+		return tmconsensus.HandleVoteProofsBadPubKeyHash
 	}
 
 	// In the normal flow with non-future views,
@@ -1034,29 +1024,19 @@ func (m *Mirror) handleFuturePrecommitProofs(
 	pubKeys := vlReq.VRV.ValidatorSet.PubKeys
 
 	if len(pubKeys) == 0 {
-		// The mirror didn't have the public keys loaded in memory,
-		// so read them from storage.
-		var err error
-		pubKeys, err = m.vs.LoadPubKeys(ctx, p.PubKeyHash)
-		if err != nil {
-			// The only "acceptable" error for loading public keys is not finding them.
-			var noHashErr tmstore.NoPubKeyHashError
-			if errors.As(err, &noHashErr) {
-				// Call it too far in the future if we can't identify the public keys.
-				// However, if supported, it would be better to make a remote call
-				// to look up the public keys.
-				return tmconsensus.HandleVoteProofsFutureUnverified
-			}
+		// The vote is for a height beyond the voting height.
+		// That height's validator set is only determined by a header we have not committed yet,
+		// so there is no key set these signatures can be verified against:
+		// a set looked up by the hash the sender chose may not be the one the chain prescribes,
+		// and votes verified against it must not be persisted under that height.
+		return tmconsensus.HandleVoteProofsFutureUnverified
+	}
 
-			// If it was any other error, fail now.
-			m.log.Warn(
-				"Error while looking up future public keys",
-				"h", p.Height,
-				"r", p.Round,
-				"err", err,
-			)
-			return tmconsensus.HandleVoteProofsInternalError
-		}
+	if p.PubKeyHash != string(vlReq.VRV.ValidatorSet.PubKeyHash) {
+		// Same height as the voting view, so the validator set is known;
+		// refuse a message that claims a different one,
+		// like we do for the rounds we hold views for.
+		return tmconsensus.HandleVoteProofsBadPubKeyHash
 	}
 
 	// In the normal flow with non-future views,
